@@ -86,7 +86,7 @@ def main():
         if not os.path.exists(lock):
             import shutil
             shutil.copy(os.path.join(REPO, "Cargo.lock"), lock)
-    jobs = int(os.environ.get("VERIF_KANI_JOBS", "5"))
+    jobs = int(os.environ.get("VERIF_KANI_JOBS", "8" if (t == "quick" and pid == "C12") else "5"))
     per = int(os.environ.get("VERIF_KANI_CAP", "420" if t == "quick" else "900"))
     cap = 3 * 3600 if t == "thorough" else 2400
     t0 = time.time()
@@ -184,8 +184,8 @@ def main():
                                   "For complete traversals the skip schedule is enumerated, not symbolic (a symbolic decision followed by more than one call "
                                   "does not finish), so there the solver quantifies over payloads only. "
                                   "OUTSIDE the bound with a symbolic start/skip: items beyond the two leading ones (three calls did not finish in 10 min; "
-                                  "DfsEdge: beyond the first, two calls exhaust 62 GB), the loop-based metrics num_nodes / depth / path_to_node / "
-                                  "index iterators (no verdict in 400 s), depth_stats")
+                                  "DfsEdge: beyond the first, two calls exhaust 62 GB), path_to_node (no verdict in 300 s even with a concrete "
+                                  "argument), depth_stats (floating-point statistics of a third-party crate)")
     chk.assumptions += ["slab is replaced by a heap-free model for CBMC; every counterexample is re-run natively on the real slab (dev and release)",
                         "bounded: shapes with <= 3 nodes, unwind 6-8 with unwinding assertions on"]
     return chk.finish()
